@@ -39,8 +39,10 @@ def render(ast, rnd=None, style="plain"):
     """
     style "plain": upper case letters, single spaces around operators (safe inside AHB expressions)
     style "wild": any operator spelling, random whitespace, occasional redundant brackets
+    style "upper": like wild but without lower case operator letters (safe inside AHB expressions)
     """
-    wild = style == "wild" and rnd is not None
+    wild = style in ("wild", "upper") and rnd is not None
+    spellings = {k: (v if style == "wild" else v[:2]) for k, v in OPS.items()}
 
     def space():
         if not wild:
@@ -64,7 +66,7 @@ def render(ast, rnd=None, style="plain"):
         if kind == "ta":
             text = go(node[1], prec) + (rnd.choice(["", " "]) if wild else "") + go(node[2], prec, True)
         else:
-            symbol = rnd.choice(OPS[kind]) if wild else (OPS[kind][0] if style != "symbol" else OPS[kind][1])
+            symbol = rnd.choice(spellings[kind]) if wild else (OPS[kind][0] if style != "symbol" else OPS[kind][1])
             text = go(node[1], prec) + space() + symbol + space() + go(node[2], prec, True)
         # brackets: needed when binding weaker than the parent; same-operator chains are bracketed on the right side
         # so that the written grouping is the generated grouping
